@@ -240,6 +240,18 @@ pub mod rcq {
     }
 }
 
+/// const generic array lengths: not type parameters for scale-info, the type name is as written
+#[allow(dead_code)]
+pub mod rck {
+    use scale_info::TypeInfo;
+
+    #[derive(TypeInfo)]
+    pub struct CBuf<T, const N: usize> {
+        pub data: [T; N],
+        pub tag: Option<T>,
+    }
+}
+
 // ---------------------------------------------------------------------------------------------
 // the mirrored model
 
@@ -313,6 +325,8 @@ pub const GENBITS: usize = 20;
 pub const COMPACTUNIT: usize = 21;
 pub const QUAL: usize = 22;
 pub const IDENT: usize = 23;
+pub const CBUF4: usize = 24;
+pub const CBUF8: usize = 25;
 
 pub fn model_defs() -> Vec<Def> {
     use Prim::*;
@@ -666,6 +680,34 @@ pub fn model_defs() -> Vec<Def> {
                 ]),
             )
         },
+        {
+            let cbuf = |n: u32| sdef(
+                BASE[..2].iter().map(|s| s.to_string()).chain(["rck".to_string(), "CBuf".to_string()]).collect(),
+                vec![p("T")],
+                vec![],
+                Fields::Named(vec![named("data", Ty::Array(n, bx(Ty::Param(0)))), named("tag", Ty::Opt(bx(Ty::Param(0))))]),
+            );
+            cbuf(4)
+        },
+        {
+            sdef(
+                BASE[..2].iter().map(|s| s.to_string()).chain(["rck".to_string(), "CBuf".to_string()]).collect(),
+                vec![p("T")],
+                vec![],
+                Fields::Named(vec![named("data", Ty::Array(8, bx(Ty::Param(0)))), named("tag", Ty::Opt(bx(Ty::Param(0))))]),
+            )
+        },
+    ]
+}
+
+/// roots of the const-generic corpus (`Program::name_style == 2`)
+pub fn roots_k() -> Vec<(MetaType, Ty)> {
+    use Prim::*;
+    vec![
+        (MetaType::new::<rck::CBuf<u8, 4>>(), Ty::Def(CBUF4, vec![pr(U8)])),
+        (MetaType::new::<rck::CBuf<u8, 8>>(), Ty::Def(CBUF8, vec![pr(U8)])),
+        (MetaType::new::<rck::CBuf<u16, 4>>(), Ty::Def(CBUF4, vec![pr(U16)])),
+        (MetaType::new::<rck::CBuf<bool, 8>>(), Ty::Def(CBUF8, vec![pr(Bool)])),
     ]
 }
 
@@ -763,14 +805,22 @@ pub fn real_registry(metas: &[MetaType]) -> PortableRegistry {
 pub fn self_check(seed: u64, rounds: usize) -> Result<(), String> {
     let defs = model_defs();
     for round in 0..rounds {
-        let name_style = if round % 4 == 3 { 1 } else { 0 };
-        let all = if name_style == 1 { roots_q() } else { roots() };
+        let name_style = match round % 8 {
+            3 => 1,
+            5 => 2,
+            _ => 0,
+        };
+        let all = match name_style {
+            1 => roots_q(),
+            2 => roots_k(),
+            _ => roots(),
+        };
         let bytes: Vec<u8> = (0..64)
             .map(|i| (mix(&[seed, round as u64, i]) & 0xff) as u8)
             .collect();
         let mut t = Tape::new(&bytes);
         let mut picked: Vec<usize> = vec![];
-        if round == 0 || round == 3 {
+        if round == 0 || round == 3 || round == 5 {
             picked = (0..all.len()).collect();
         } else {
             let n = 1 + t.choose(all.len().min(8));
